@@ -310,7 +310,8 @@ func gen(c *core.Ctx) error {
 				c.OracleFail("format", err.Error(), map[string]interface{}{"ref_built": true, "pre": pa, "back": pb})
 			}
 			// base IV whose leading word is about to wrap: nonce word = (base + counter) mod 2^32
-			for _, lead := range [][]byte{{0xff, 0xff, 0xff, 0xff}, {0xff, 0xff, 0xff, 0xfd}} {
+			// ... and special base IVs a peer may legitimately draw: all zero, all ones, zero leading word
+			for _, lead := range [][]byte{{0xff, 0xff, 0xff, 0xff}, {0xff, 0xff, 0xff, 0xfd}, make([]byte, 16), bytes.Repeat([]byte{0xff}, 16), {0, 0, 0, 0}} {
 				c.OracleCheck()
 				c.Evaluated(1)
 				c.Count("reference-built-iv-word-wraps")
